@@ -370,8 +370,8 @@ def r9_stateless(ctx, prog):
     ctx.floor("C16-R9", n, 20, "functions of the conversion modules")
 
 
-def r10_same_transformation(ctx, prog, ci):
-    ctx.rule("C16-R10", "pixel -> sky and sky -> pixel are the SAME "
+def r10_same_transformation(ctx, prog, ci, rule="C16-R10"):
+    ctx.rule(rule, "pixel -> sky and sky -> pixel are the SAME "
              "transformation: on each WCS object the forward and the inverse "
              "call belong to one astropy family -- all_pix2world with "
              "all_world2pix (core + distortions) or wcs_pix2world with "
@@ -388,12 +388,12 @@ def r10_same_transformation(ctx, prog, ci):
                 fam.setdefault(obj, []).append((pre, op, fi, c))
     n = 0
     main = fam.get("self.wcs", [])
-    ctx.floor("C16-R10", len(main), 2, "astropy transformations on self.wcs")
+    ctx.floor(rule, len(main), 2, "astropy transformations on self.wcs")
     allsites = [x for v in fam.values() for x in v]
     pres = sorted({x[0] for x in allsites})
     for pre, op, fi, c in allsites:
         n += 1
-        ctx.check("C16-R10", fi, "family of " + norm(c.func), len(pres) == 1,
+        ctx.check(rule, fi, "family of " + norm(c.func), len(pres) == 1,
                   "WCSHelper mixes the astropy families %s: %s here, while "
                   "%s elsewhere -- for an image with distortion terms "
                   "pix2sky and sky2pix are no longer inverse of each other" %
